@@ -13,6 +13,7 @@ import AsynqModel.Drv.Dedup
 import AsynqModel.Drv.Batching
 import AsynqModel.Drv.Generator
 import AsynqModel.Drv.Tools
+import AsynqModel.Drv.Families4
 open AsynqModel
 
 /-- dispatch one case to the model of its mode -/
@@ -57,12 +58,7 @@ def handleCase (mode : String) (id : Nat) (hdr body : List Sexp) : String :=
       if out == "ok" && r1.nat? == n.nat? && r2.nat? == n.nat? then s!"R {id} CORR=ok SPEC=ok SPECM=ok | "
       else s!"R {id} CORR=diff SPEC=fail:long-loop-does-not-terminate-normally-{out} SPECM=ok | resumed {r1} and {r2} times for {n} yields"
     | _, _ => s!"R {id} CORR=diff SPEC=ok SPECM=ok | unparsable longloop case"
-  | "exotic" =>
-    match body with
-    | [.list [.atom "result", .atom out, .list evs]] =>
-      if out == "ok" && evs == [.atom "values-ok", .atom "same-error", .atom "values-ok"] then s!"R {id} CORR=ok SPEC=ok SPECM=ok | "
-      else s!"R {id} CORR=diff SPEC=fail:error-or-values-not-delivered-at-the-yield-{out} SPECM=ok | got {Sexp.list evs}"
-    | _ => s!"R {id} CORR=diff SPEC=ok SPECM=ok | unparsable exotic case"
+  | "exotic" => Drv.Families4.exotic id hdr body
   | "resetbetween" =>
     match body with
     | [.list [.atom "result", .atom out, clean]] =>
@@ -89,6 +85,14 @@ def handleCase (mode : String) (id : Nat) (hdr body : List Sexp) : String :=
       if out == expected && clean.nat? == some 1 && nxt.nat? == some 1 then s!"R {id} CORR=ok SPEC=ok SPECM=ok | "
       else s!"R {id} CORR=diff SPEC=fail:context-hook-error-{out}-clean{clean}-next{nxt} SPECM=ok | expected {expected}, clean scheduler, next computation ok"
     | _, _ => s!"R {id} CORR=diff SPEC=ok SPECM=ok | unparsable ctxraise case"
+  -- round-4 families (direct expectations in AsynqModel/Drv/Families4.lean)
+  | "aiostart" => Drv.Families4.aiostart id hdr body
+  | "eventhook" => Drv.Families4.eventhook id hdr body
+  | "debugthreads" => Drv.Families4.debugthreads id hdr body
+  | "hookssurvive" => Drv.Families4.hookssurvive id hdr body
+  | "callctx" => Drv.Families4.callctx id hdr body
+  | "selfawait" => Drv.Families4.selfawait id hdr body
+  | "optprog" => Drv.Families4.optprog id body
   | "futures" => Drv.Futures.handle id hdr body
   | "futsubs" => Drv.Futures.handleSubs id hdr body
   | "futcopy" => Drv.Futures.handleCopy id hdr body
